@@ -534,6 +534,12 @@ func (ex *Exec) wrapInt(v Val) Val {
 		bits, signed = 16, false
 	case types.Uint32:
 		bits, signed = 32, false
+	case types.Int, types.Int64:
+		if !ex.wrap64 {
+			return v
+		}
+		v.T = fmt.Sprintf("(- (mod (+ %s 9223372036854775808) 18446744073709551616) 9223372036854775808)", v.T)
+		return v
 	default:
 		return v
 	}
@@ -798,7 +804,11 @@ func (ex *Exec) builtin(st *State, name string, x *ast.CallExpr, k func(*State, 
 				if name == "max" {
 					op = ">"
 				}
-				r = Val{T: sIte(fmt.Sprintf("(%s %s %s)", op, a.T, r.T), a.T, r.T), S: r.S, Go: r.Go}
+				cmp := fmt.Sprintf("(%s %s %s)", op, a.T, r.T)
+				if a.S.Kind == KUn {
+					cmp = ex.orderedCmp(op, a, r)
+				}
+				r = Val{T: sIte(cmp, a.T, r.T), S: r.S, Go: r.Go}
 			}
 			one(st, r)
 		})
